@@ -375,6 +375,14 @@ def _run_list(case, R):
             R.check(ra[0] == "ok" and _val_eq(list(ra[1]), rm[1]), "return", "ListProxy.add", lambda: "+ : proxy -> %r, list -> %r" % (ra, rm))
             if ra[0] == "ok":
                 typed(ra[1], "add")
+                # a concatenation is a NEW list (also when the right operand is empty): changing it leaves the operand alone
+                R.check(ra[1] is not L, "identity", "ListProxy.add", "+ returned its left operand itself")
+                if len(ra[1]):
+                    held = list(L)
+                    ra[1].append(ra[1][0])
+                    R.check(_val_eq(list(L), held), "identity", "ListProxy.add:independent", lambda: "appending to the result of + changed the left operand: %r -> %r" % (held, list(L)))
+                    if not len(a if isinstance(a, (list, tuple)) else [1]):
+                        R.label("add:empty-operand")
         elif name == "reassign":
             # the whole value is replaced through the configuration (validated as a new typed list)
             a, m = iterable(op["items"], op["ik"])
@@ -384,6 +392,7 @@ def _run_list(case, R):
             R.check(isinstance(L, cc.ListProxy) and L.item_field is schema.items.field, "typed", "ListProxy.reassign", "assigned value is %s" % type(L).__name__)
         elif name == "mul":
             compare(name, _outcome(lambda: list(L * op["n"])), _outcome(lambda: M * op["n"]))
+            R.check((L * op["n"]) is not L, "identity", "ListProxy.mul", "* returned its operand itself")
         elif name == "imul":
             def do_imul():
                 nonlocal L
